@@ -62,6 +62,16 @@ pub fn inplace_damage(img: &mut Image, frames: &[(String, Frame)], rng: &mut Rng
         if len == 0 || off + len > data.len() {
             return None;
         }
+        if what == "type" && rng.chance(1, 2) {
+            // re-type the frame as another VALID frame type
+            let old = data[off];
+            let mut new = rng.range(1, 4) as u8;
+            if new == old {
+                new = 1 + (old % 4);
+            }
+            data[off] = new;
+            return Some(json!({"aimed_at": "type", "frame_type": f.ftype, "file": name, "offset": off, "len": 1, "mode": format!("retyped-{}-to-{}", old, new)}));
+        }
         let mode = rng.below(3);
         let (o, l) = if mode == 0 { (off + rng.usize(0, len - 1), 1) } else { (off, len) };
         match mode {
